@@ -2,3 +2,5 @@ import Curtsies.Model.Basic
 import Curtsies.Model.FmtStr
 import Curtsies.Generated.Sgr
 import Curtsies.Properties.C06
+import Curtsies.Spec.PySlice
+import Curtsies.Proofs.Slice
